@@ -43,6 +43,10 @@ Intended(k, D, t, v) ==
 E1(e) == IF SetOf(e.after.hon) # SetOf(e.after.disk) THEN "C16_E1_honoured_set_differs_from_file" ELSE "ok"
 E2(d, e) == IF d \cap (Ids(e.after.hon) \cup Ids(e.after.disk)) # {} THEN "C16_E2_revoked_token_is_back" ELSE "ok"
 Parses(e) == IF e.after.parses = 0 THEN "C16_E4_file_does_not_parse_completely" ELSE "ok"
+\* every instant at which the file name does not exist is a possible crash state (observed through inotify, whether or
+\* not a hook sits there): with tokens before and after the call, a restart at that instant would have seen neither set
+Unlinked(e) == IF "unlinked" \in DOMAIN e /\ e.unlinked > 0 /\ SetOf(e.before.disk) # {} /\ SetOf(e.after.disk) # {}
+               THEN "C16_E4_token_file_absent_in_the_middle_of_an_update" ELSE "ok"
 
 \* version bookkeeping for an "op" event: the version before the call (an unseen change since the
 \* previous event counts), and after it
@@ -77,7 +81,7 @@ TWrite ==
                  ELSE IF exists THEN (IF cur THEN "" ELSE "mismatch")
                  ELSE (IF e.used = "" THEN "" ELSE "mismatch")
      IN /\ dead' = d1
-        /\ Verdict(First(<<Parses(e), e3, E1(e), E2(d1, e)>>))
+        /\ Verdict(First(<<Parses(e), e3, E1(e), E2(d1, e), Unlinked(e)>>))
         /\ NoteDrift(pred = e.err)
         /\ Track(e) /\ UNCHANGED readVer
   /\ UNCHANGED nbeh
@@ -90,7 +94,7 @@ TExpire ==
          swept == {p[1] : p \in {x \in B : x[2] = 2}}
          d1 == dead \cup (Ids(e.before.disk) \ Ids(e.after.disk))
      IN /\ dead' = d1
-        /\ Verdict(First(<<Parses(e), E1(e), E2(d1, e),
+        /\ Verdict(First(<<Parses(e), E1(e), E2(d1, e), Unlinked(e),
                            IF ~(A \subseteq B) THEN "C16_E2_sweep_invented_or_changed_tokens" ELSE "ok">>))
         /\ NoteDrift(e.err = "" /\ A = {x \in B : x[2] # 2})
         /\ Track(e) /\ UNCHANGED readVer
